@@ -382,6 +382,7 @@ def colcol_block(ctx, P, cases, urlcases, tmpdir):
     """column-vs-column clauses between DIFFERENT columns, all six operators, every backend and entry, in every run:
     on these rows `a OP b` never selects what `b OP b` (or `a OP a`) selects"""
     for o in OPS:
+        ran = {}
         for (c1, c2) in (("i", "j"), ("j", "i"), ("f", "i"), ("t", "u")):
             want = seqtab.ref_filter(CC_NAMES, CC_ROWS, [(c1, o, ("name", c2))])
             assert want != seqtab.ref_filter(CC_NAMES, CC_ROWS, [(c2, o, ("name", c2))])
@@ -391,7 +392,10 @@ def colcol_block(ctx, P, cases, urlcases, tmpdir):
                 for cols in (None, [c2, "t"]):
                     check_case(ctx, P, backend, CC_NAMES, CC_KINDS, CC_ROWS, cols, None, [clause], cases, tmpdir, "colcol",
                                ("raw", "open_url", "operators", "mixed"), urlcases)
-                ctx.count(("colcol", backend, o, c1, c2), True, tag="colcol-different-columns:%s:%s" % (backend, OPS[o][0]))
+                    ran[backend] = ran.get(backend, 0) + 1
+        # one tag per operator naming the backends it really ran on (evidence keeps the 60 most frequent tags)
+        ctx.tags["colcol-different-columns:%s:on-%s:x4-entries" % (OPS[o][0], "+".join(b for b in BACKENDS if ran.get(b)))] += \
+            sum(ran.values())
 
 
 W_NAMES, W_KINDS = ["i", "f", "t"], ["i", "f", "t"]
